@@ -60,6 +60,8 @@ class Config:
     grad_scaler: float | None = None
     sgd_lr: float = 0.05
     union: int = 1                 # W=1 run on the union of `union` rank batches
+    fresh_perturb: bool = False    # a resume constructs the fresh preconditioner
+                                   # with OTHER constant hyper-parameters (the load must restore the saved ones)
     gpt: dict | None = None        # GPT-NeoX runs: {'D','M','bias_col','bias_row',...}
 
     def to_json(self) -> dict[str, Any]:
@@ -155,6 +157,14 @@ def make_model(name: str, seed: int, dtype: torch.dtype) -> torch.nn.Module:
             torch.nn.Linear(4, 5), Act(),
             torch.nn.Linear(5, 2, bias=False),
         )
+    elif name == 'mixb':
+        # bias-free, biased, bias-free: a bias-free layer is registered
+        # before a biased one (A 3,6,4  G 5,4,2)
+        m = torch.nn.Sequential(
+            torch.nn.Linear(3, 5, bias=False), Act(),
+            torch.nn.Linear(5, 4, bias=True), Act(),
+            torch.nn.Linear(4, 2, bias=False),
+        )
     elif name == 'mlp4':
         # four layers for load-balancing variety; A 5,8,6,4 G 7,... distinct
         m = torch.nn.Sequential(
@@ -173,12 +183,12 @@ def make_model(name: str, seed: int, dtype: torch.dtype) -> torch.nn.Module:
 
 def in_shape(name: str) -> tuple[int, ...]:
     return {'mlp3': (4,), 'mlp2': (3,), 'mlp2nb': (3,), 'conv': (2, 4, 4),
-            'mlp4': (4,), 'conv2': (2, 5, 4), 'nd': (3, 4)}[name]
+            'mlp4': (4,), 'conv2': (2, 5, 4), 'nd': (3, 4), 'mixb': (3,)}[name]
 
 
 def out_shape(name: str) -> tuple[int, ...]:
     return {'mlp3': (2,), 'mlp2': (3,), 'mlp2nb': (2,), 'conv': (4,),
-            'mlp4': (2,), 'conv2': (4,), 'nd': (3, 2)}[name]
+            'mlp4': (2,), 'conv2': (4,), 'nd': (3, 2), 'mixb': (2,)}[name]
 
 
 def make_batch(cfg: Config, seed: int, rank: int, it: int, mb: int,
@@ -205,6 +215,25 @@ def loss_fn(out: torch.Tensor, y: torch.Tensor, local_batch: int,
     if scale is not None:
         loss = loss * scale
     return loss
+
+
+def perturbed(cfg: Config) -> Config:
+    """Same configuration with different CONSTANT scalar hyper-parameters."""
+    d = asdict(cfg)
+    if not isinstance(cfg.damping, str):
+        d['damping'] = cfg.damping * 3.0
+    if not isinstance(cfg.decay, str):
+        d['decay'] = 0.5 if cfg.decay != 0.5 else 0.75
+    if cfg.kl_clip is not None and not isinstance(cfg.kl_clip, str):
+        d['kl_clip'] = cfg.kl_clip * 7.0
+    if not isinstance(cfg.lr, str):
+        d['lr'] = cfg.lr * 0.5 + 0.01
+    if not isinstance(cfg.F, str):
+        d['F'] = cfg.F + 1
+    if not isinstance(cfg.I, str):
+        d['I'] = cfg.I + 2
+    d['fresh_perturb'] = False
+    return Config(**d)
 
 
 def build_precond(cfg: Config, model: torch.nn.Module) -> Any:
@@ -426,7 +455,9 @@ class RankRun:
                     if p.grad is not None:
                         q.grad = p.grad.detach().clone()
                 self.model = new_model
-                self.pre = build_precond(self.cfg, self.model)
+                self.pre = build_precond(
+                    perturbed(self.cfg) if self.cfg.fresh_perturb else self.cfg,
+                    self.model)
                 self._make_sched()
                 self.pre.load_state_dict(
                     copy.deepcopy(self.ckpt), compute_inverses=bool(comp),
